@@ -2,6 +2,7 @@
 package uhppote
 
 import (
+	"net/netip"
 	"os"
 	"sync"
 	"time"
@@ -20,6 +21,14 @@ type c13Zoned struct {
 }
 
 func c13ZonedReply(iana bool) c13Zoned {
+	z, _ := c13ZonedReplyIn(iana, false)
+	return z
+}
+
+// controller: the symbolic zone is not the process zone (which is UTC) but the zone configured for the
+// controller (Device.TimeZone) - the system date-time is the wall clock the controller sent, whatever that
+// zone does to it (every transmitted wall clock time exists in the process zone, so nothing is assumed away)
+func c13ZonedReplyIn(iana bool, controller bool) (c13Zoned, *time.Location) {
 	verifUseSummary("bcd.Decode") // compositional: the contract of bcd.Decode is what C12 proves
 	id := nondetSerial("id")
 	dg := nondetBytes("sys.digits", 12) // YY MM DD HH mm ss
@@ -33,16 +42,21 @@ func c13ZonedReply(iana bool) c13Zoned {
 	if iana {
 		verifZoneTable()
 	}
-	verifZoneAt(y, mo, d)
-	o1, o2, tau := verifZoneParams()
-	sod := hh*3600 + mi*60 + ss
-	verifAssume(!(o2 > o1 && sod-o1 >= tau && sod-o2 < tau)) // the civil time exists in the zone
+	var loc *time.Location
+	if controller {
+		loc = verifControllerZoneAt(y, mo, d)
+	} else {
+		verifZoneAt(y, mo, d)
+		o1, o2, tau := verifZoneParams()
+		sod := hh*3600 + mi*60 + ss
+		verifAssume(!(o2 > o1 && sod-o1 >= tau && sod-o2 < tau)) // the civil time exists in the zone
+	}
 	r := make([]byte, 64)
 	r[0], r[1] = 0x17, 0x20
 	specPut32(r, 4, id)
 	r[51], r[52], r[53] = dg[0]<<4|dg[1], dg[2]<<4|dg[3], dg[4]<<4|dg[5]
 	r[37], r[38], r[39] = dg[6]<<4|dg[7], dg[8]<<4|dg[9], dg[10]<<4|dg[11]
-	return c13Zoned{id: id, r: r, y: y, mo: mo, d: d, hh: hh, mi: mi, ss: ss}
+	return c13Zoned{id: id, r: r, y: y, mo: mo, d: d, hh: hh, mi: mi, ss: ss}, loc
 }
 
 func c13Status(iana bool) {
@@ -120,3 +134,56 @@ func VerifC13_Listen()           { c13Listen(false) }
 func VerifC13_Listen_IANA()      { c13Listen(true) }
 func VerifC10_ListenZoned()      { c13Listen(false) }
 func VerifC10_ListenZoned_IANA() { c13Listen(true) }
+
+// the controller is configured with its own time zone (any two-interval zone; the process zone is UTC): the
+// system date-time of a status and of an event are still the transmitted wall clock fields
+func c13StatusControllerZone(iana bool) {
+	z, loc := c13ZonedReplyIn(iana, true)
+	dr := &vDriver{seq: [][]byte{z.r}, reply: z.r} // (a configured controller is addressed directly)
+	u := vClient(dr)
+	u.devices[z.id] = Device{Name: "alpha", DeviceID: z.id, Address: types.ControllerAddrFrom(netip.AddrFrom4([4]byte{192, 168, 1, 100}), 60000), Protocol: "udp", TimeZone: loc}
+	st, err := u.GetStatus(z.id)
+	verifAssert(err == nil && st != nil, "GetStatus (controller zone): a well-formed status is returned")
+	if st != nil {
+		t := time.Time(st.SystemDateTime)
+		verifObserve("sys.day", t.Day())
+		verifObserve("sys.hour", t.Hour())
+		verifAssert(t.Year() == z.y && int(t.Month()) == z.mo && t.Day() == z.d, "GetStatus (controller zone): the system date-time reports the transmitted calendar day")
+		verifAssert(t.Hour() == z.hh && t.Minute() == z.mi && t.Second() == z.ss, "GetStatus (controller zone): the system date-time reports the transmitted time of day")
+		verifAssert(t.Format("2006-01-02 15:04:05") == c13Text(z), "GetStatus (controller zone): the system date-time prints as the transmitted wall clock")
+	}
+	verifReach("c13.status.controllerzone")
+}
+
+func c13Text(z c13Zoned) string {
+	two := func(v int) string { return string([]byte{byte('0' + v/10%10), byte('0' + v%10)}) }
+	return two(z.y/100) + two(z.y%100) + "-" + two(z.mo) + "-" + two(z.d) + " " + two(z.hh) + ":" + two(z.mi) + ":" + two(z.ss)
+}
+
+func VerifC13_StatusControllerZone()      { c13StatusControllerZone(false) }
+func VerifC13_StatusControllerZone_IANA() { c13StatusControllerZone(true) }
+
+func c13ListenControllerZone(iana bool) {
+	z, loc := c13ZonedReplyIn(iana, true)
+	d := &vDriver{events: [][]byte{z.r}, async: true}
+	u := vClient(d)
+	u.devices[z.id] = Device{Name: "alpha", DeviceID: z.id, Address: types.ControllerAddrFrom(netip.AddrFrom4([4]byte{192, 168, 1, 100}), 60000), Protocol: "udp", TimeZone: loc}
+	l := &c13Listener{}
+	d.settle = l.settle
+	q := make(chan os.Signal, 1)
+	q <- os.Interrupt
+	err := u.Listen(l, q)
+	verifAssert(verifGoroutines() == 0, "Listen (controller zone): its goroutines have ended")
+	verifAssert(err == nil && len(l.got) == 1, "Listen (controller zone): the event is delivered")
+	if len(l.got) == 1 {
+		t := time.Time(l.got[0].SystemDateTime)
+		verifObserve("sys.day", t.Day())
+		verifObserve("sys.hour", t.Hour())
+		verifAssert(t.Year() == z.y && int(t.Month()) == z.mo && t.Day() == z.d, "Listen (controller zone): the system date-time of an event reports the transmitted calendar day")
+		verifAssert(t.Hour() == z.hh && t.Minute() == z.mi && t.Second() == z.ss, "Listen (controller zone): the system date-time of an event reports the transmitted time of day")
+	}
+	verifReach("c13.listen.controllerzone")
+}
+
+func VerifC13_ListenControllerZone()      { c13ListenControllerZone(false) }
+func VerifC13_ListenControllerZone_IANA() { c13ListenControllerZone(true) }
